@@ -930,8 +930,10 @@ T_pair     == {RS(<<"pair">>,              {"I_pair", "I_pairr", "I_pairc", "Rel
               \cup {RS(<<"pair">>,        {"I_pair", "I_pairc", "Relu"},      X, 3, 1, T, X, T, X, T, X)}
               \cup {RS(<<"pair", "subneg">>, {"I_pair", "I_pairc", "Sub"},    X, 2, 1, T, X, X, X, X, X)}
 T_ext      == {RS(rs,                      {"Relu", "Neg"},                    X, 3, 1, T, T, X, X, w, X) : rs \in {<<"ext">>, <<"ext", "negneg">>}, w \in BOOLEAN}
-T_dag      == {RS(<<r>>,                   {"I_dag", "I_dagr", "Neg", "Relu"}, c, 3, 1, T, X, X, X, w, T) : r \in {"dag", "dagr"}, c \in BOOLEAN, w \in BOOLEAN}
-              \cup {RS(<<"dagm">>,         {"I_dagm", "Neg", "Identity"},      X, 3, 1, T, X, X, X, w, X) : w \in BOOLEAN}
+T_dag      == {RS(<<r>>,                   {"I_dag", "I_dagr", "Neg", "Relu"}, X, 3, 1, X, X, X, X, w, T) : r \in {"dag", "dagr"}, w \in BOOLEAN}
+              \cup {RS(<<"dag">>,          {"I_dag", "I_dagr", "Neg"},         T, 3, 1, T, X, X, X, X, X)}
+              \cup {RS(<<"dagm">>,         {"I_dagm", "Neg", "Identity"},      X, 3, 1, X, X, X, X, w, X) : w \in BOOLEAN}
+              \cup {RS(<<"dagm">>,         {"I_dagm", "Neg"},                  X, 2, 1, T, X, X, X, X, X)}
 ThoroughSets == T_ext \cup T_dag \cup T_negneg \cup T_keep \cup T_relurelu \cup T_mul1 \cup T_subneg \cup T_chain \cup T_dbl \cup T_fn \cup T_pair
 VacuitySets == {RS(<<"subneg">>, {"Sub"}, X, 2, 1, T, X, X, X, X, X), RS(<<"dbl">>, {"Add"}, X, 2, 1, X, X, X, X, X, X),
                 RS(<<"relurelu">>, {"Relu"}, X, 3, 1, X, X, X, X, X, X), RS(<<"pair">>, {"I_pairc"}, X, 1, 1, X, X, X, X, X, X)}
